@@ -113,8 +113,10 @@ class ADWIN(StreamingDetector):
             raise ValueError("ADWIN should only be used to monitor 1 variable.")
         super().update(X, None, None)
 
-        # the array should have a single element after validation.
-        X = X[0][0]
+        # the array should have a single element after validation. The running
+        # sums are kept in double precision whatever the dtype of the input
+        # (numpy scalar arithmetic would otherwise keep e.g. uint8 or float32).
+        X = float(X[0][0])
 
         # add new sample to the head of the window
         self._window_size += 1
